@@ -104,6 +104,40 @@ Theorem num_tree_ok_sound : forall t : znode, num_tree_ok t = true ->
 Proof. exact (fun t H => proj2 (tree_ok_sound_l Z.ltb Z.eqb fanout num_maxd Z_key_order t H)). Qed.
 Print Assumptions num_tree_ok_sound.
 
+(* ---- the key orders of the two instances.  Every generic theorem above has [key_order ltb eqb] as
+   a hypothesis; these are the instances the library is held to.  Number trees: the order of the
+   integers themselves - on int64 values there is no wrap-around, MinInt64 < -1 < 0 < MaxInt64, whatever
+   the distance between two keys.  Name trees: byte-wise lexicographic, a proper prefix first. *)
+Theorem num_key_order : key_order Z.ltb Z.eqb /\
+  (forall a b : Z, Z.ltb a b = true <-> (a < b)%Z) /\ (forall a b : Z, Z.eqb a b = true <-> a = b).
+Proof. exact (conj Z_key_order (conj Z.ltb_lt Z.eqb_eq)). Qed.
+Print Assumptions num_key_order.
+
+Theorem name_key_order : key_order bytes_ltb bytes_eqb.
+Proof. exact bytes_key_order. Qed.
+Print Assumptions name_key_order.
+
+(* hence EVERY strictly ascending non-empty key sequence is written, none is refused (the harness
+   holds the real writers to this on keys of extreme magnitude and distance: a refused sorted
+   sequence is a failing input, signature sorted-rejected) *)
+Theorem num_sorted_accepted : forall es : list (Z * Z), sorted Z.ltb es -> es <> [] ->
+  exists t, num_write es = Ok (Some t).
+Proof. exact (proj2 (empty_no_tree_l Z.ltb Z.eqb fanout Z_key_order fanout_ge2)). Qed.
+Print Assumptions num_sorted_accepted.
+
+Theorem name_sorted_accepted : forall es : list (bytes * Z), sorted bytes_ltb es -> es <> [] ->
+  exists t, name_write es = Ok (Some t).
+Proof. exact (proj2 (empty_no_tree_l bytes_ltb bytes_eqb fanout bytes_key_order fanout_ge2)). Qed.
+Print Assumptions name_sorted_accepted.
+
+(* the extremes of int64 and the gaps that overflow a 64-bit difference are ordinary keys *)
+Example ex_extreme_keys :
+  sorted Z.ltb [((-9223372036854775808)%Z, 0%Z); ((-1)%Z, 1%Z); (0%Z, 2%Z); (9223372036854775807%Z, 3%Z)] /\
+  exists t, num_write [((-9223372036854775808)%Z, 0%Z); ((-1)%Z, 1%Z); (0%Z, 2%Z); (9223372036854775807%Z, 3%Z)] = Ok (Some t) /\
+    num_lookup t (9223372036854775807)%Z = Ok (Some 3%Z) /\ num_lookup t (-9223372036854775808)%Z = Ok (Some 0%Z) /\
+    num_lookup t 9223372036854775806%Z = Ok None.
+Proof. split; [vm_compute; auto|]. eexists. split; [vm_compute; reflexivity|]. vm_compute. auto. Qed.
+
 (* ---- the readers on a FILE: node dictionaries connected by references - a graph with possibly
    shared or cyclic kids and dangling references.  The recursion of the model is bounded by the
    nesting cap alone (fuel = maxDepth - depth), so every traversal terminates. *)
